@@ -25,6 +25,26 @@ def out_dirs(root, targets, inside):
     return {t: os.path.join(base, t) for t in targets}
 
 
+# one semantic error per validation pass of dsl.Validate (Pipeline.tla PassKinds)
+PASS_KINDS = {
+    "type_name": "brokenName: int\n",
+    "generic_def": "BrokenG<T>: !enum\n  values: [a, b]\n",
+    "field_name": "Broken: !record\n  fields:\n    dup: int\n    dup: float\n",
+    "step_name": "BrokenP: !protocol\n  sequence:\n    dup: int\n    dup: float\n",
+    "dimensions": "Broken: !array\n  items: int\n  dimensions: [x, x]\n",
+    "stream": "Broken: !record\n  fields:\n    s: !stream {items: int}\n",
+    "symbol": "Broken: int\nBroken: float\n",
+    "union_tag": "BrokenH<T>: !record\n  fields:\n    h: T\nBroken: [int, BrokenH<int>]\n",
+    "cycle": "Broken: !record\n  fields:\n    again: Broken\n",
+    "generic_arity": "BrokenH<T>: !record\n  fields:\n    h: T\nBroken: BrokenH<int, int>\n",
+    "map_key": "BrokenK: !record\n  fields:\n    k: int\nBroken: !map {keys: BrokenK, values: int}\n",
+    "union_cases": "Broken: [int, int32]\n",
+    "enum": "Broken: !enum\n  values: {a: 1, b: 1}\n",
+    "computed": "Broken: !record\n  fields:\n    x: int\n  computedFields:\n    c: nosuch + 1\n",
+    "unused_param": "Broken<T>: !record\n  fields:\n    x: int\n",
+}
+
+
 def write_project(root, targets, inside=False, loc="none", kind="semantic", extra_main_model="", uses=True, nver=1):
     """Write the project tree; returns (cwd for yardl, extra CLI args)."""
     shutil.rmtree(os.path.join(root, "main"), ignore_errors=True)
@@ -72,6 +92,8 @@ def write_project(root, targets, inside=False, loc="none", kind="semantic", extr
         if LOC_DIR.get(loc) == d:
             if kind == "semantic":
                 model += "Broken: !record\n  fields:\n    z: NoSuchType\n"
+            elif kind in PASS_KINDS:
+                model += PASS_KINDS[kind]
             else:
                 model += "Broken: !record\n  fieldz:\n    z: int\n"
         if loc == "evolution" and d == "main":
